@@ -1100,6 +1100,58 @@ def edit_sequences(seed: int, name: str, bnet: str, count: int):
         yield s
 
 
+# ---- (8) an oscillating module plus 'marker' variables that can only be lost / gained while it oscillates ---------------------------------
+# The marker's stable value is a stable motif, so the node above it is expanded and NOT minimal; the states with the unstable marker value are
+# transient, but the cheap candidate search (simulation_minification=False) keeps one of them as the node's only candidate.
+OSCILLATORS = {
+    "neg3": ("X, Z; Y, X; Z, !Y", ["X", "Y", "Z"]),
+    "neg2": ("X, !Y; Y, X", ["X", "Y"]),
+    "neg3_all": ("X, !Z; Y, !X; Z, !Y", ["X", "Y", "Z"]),
+    "neg1": ("X, !X", ["X"]),
+}
+MARKER_FORMS = ["M, M & !({c})", "M, M | ({c})", "M, M & !({c}); N, N & M", "M, M & !({c}); N, N | !M"]
+MARKER_TOPS = {"none": "", "switch": "p, q; q, p", "source": "s, s", "toggle": "p, !q; q, !p"}
+MARKER_FIRST = norm("X, Z; Y, X; Z, !Y; M, M & !(Y & Z)")  # the instance that revealed the shape
+
+
+def _marker_conditions(vs):
+    out = []
+    for a, b in itertools.combinations(vs, 2):
+        out += [f"{a} & {b}", f"!{a} & {b}", f"{a} & !{b}", f"!{a} & !{b}"]
+    for v in vs:
+        out += [v, "!" + v]
+    return out
+
+
+def marker_nets(seed: int, tier: str):
+    """(name, bnet): oscillator x marker form x condition (a literal or a conjunction of two literals over the oscillator) x an optional independent
+    module on top (so that the oscillating node is a child, not the root); first the instance that revealed the shape, then all combinations in a
+    seeded order, then seeded mixes with two independently conditioned markers."""
+    seen = set()
+
+    def emit(name, b):
+        if b in seen or len(variables(b)) > 7:
+            return []
+        seen.add(b)
+        return [(name, b)]
+
+    yield from emit("marker_first", MARKER_FIRST)
+    combos = [(o, k, c, t) for o, (_, vs) in OSCILLATORS.items() for k in range(len(MARKER_FORMS)) for c in _marker_conditions(vs) for t in MARKER_TOPS]
+    rng = random.Random(seed * 67 + 29)
+    rng.shuffle(combos)
+    for o, k, c, t in combos[: 150 if tier == "quick" else len(combos)]:
+        text = OSCILLATORS[o][0] + "; " + MARKER_FORMS[k].format(c=c) + ("; " + MARKER_TOPS[t] if MARKER_TOPS[t] else "")
+        yield from emit(f"marker_{o}_{k}_{c.replace(' ', '')}_{t}", norm(text))
+    for i in range(100 if tier == "quick" else 1000):
+        o = rng.choice(list(OSCILLATORS))
+        conds = _marker_conditions(OSCILLATORS[o][1])
+        c1, c2 = rng.choice(conds), rng.choice(conds)
+        m1 = rng.choice(["M, M & !({c})", "M, M | ({c})"]).format(c=c1)
+        m2 = rng.choice(["N, N & !({c})", "N, N | ({c})", "N, N & (M | ({c}))", "N, N | (M & ({c}))"]).format(c=c2)
+        t = MARKER_TOPS[rng.choice(list(MARKER_TOPS))]
+        yield from emit(f"marker{seed}_{i}", norm(OSCILLATORS[o][0] + "; " + m1 + "; " + m2 + ("; " + t if t else "")))
+
+
 def interleave(*gens):
     """Round-robin over generators (each argument is (generator, k): take k items per round) until all are exhausted."""
     its = [(iter(g), k) for g, k in gens]
